@@ -17,4 +17,8 @@ def run(ctx):
                    args=["--depth", "1" if ctx.thorough else "0"])]
     if ctx.thorough:
         stages.append(dict(variant="prod", name="c12", sources=src, libs=["-lcrypto"], args=["--depth", "2"]))
+        # the portable reference ChaCha20/Poly1305 code instead of the CPU-specific one picked at run time
+        stages.append(dict(variant="asan", name="c12", sources=src, libs=["-lcrypto"], shards=4,
+                           args=["--depth", "1", "--only", "chacha"], env={"MATRIX_CHACHA20POLY1305_REF": "1"},
+                           replay_filter=lambda case: "g=chacha" in case))
     return vflib.std_run(ctx, stages, "differential", RULE, ASSUME, min_nontrivial=20000)
